@@ -353,13 +353,14 @@ class FileBufferedCollection(BufferedCollection):
                 collection._flush(force=force)
             except (OSError, MetadataError) as err:
                 issues[collection._filename] = err
-        if not issues:
-            # Other threads may have registered collections while this flush
-            # was running, so the retained collections are added back to the
-            # registry instead of replacing it.
-            with cls._BUFFER_LOCK:
-                cls._buffered_collections.update(remaining_collections)
-        else:
+        # Other threads may have registered collections while this flush
+        # was running, so the retained collections are added back to the
+        # registry instead of replacing it. This must also happen if some
+        # files could not be flushed, otherwise the retained collections
+        # would never be flushed (and their buffer entries never removed).
+        with cls._BUFFER_LOCK:
+            cls._buffered_collections.update(remaining_collections)
+        if issues:
             raise BufferedError(issues)
 
     @classmethod
